@@ -23,6 +23,8 @@ where
         if from < stored_len {
             let stored_to = to.min(stored_len);
             let reader = self.create_reader();
+            #[cfg(anydb_verif)]
+            rawdb::verif::lock_rw("pages", rawdb::verif::LockMode::Read, &self.pages);
             let pages = self.pages.read();
             Self::read_stored_pages_into(&reader, &pages, from, stored_to, buf);
         }
